@@ -17,8 +17,13 @@ git apply -R $out/patch.diff
 go test -count=1 -run 'Demo' ./$pkgdir >/tmp/seed/out/$id.without.log 2>&1; wo=$?
 git apply $out/patch.diff
 echo "demo with patch exit=$w (want !=0), without exit=$wo (want 0)"
-cd /repo && git apply $out/patch.diff || { echo "patch does not apply to /repo"; exit 3; }
-cd /verif && ./check.sh $prop quick > /tmp/seed/out/$id.check.log 2>&1; c=$?
-git -C /repo checkout -- .
+if [ -n "$SEED_IN_WORKTREE" ]; then
+  # another job is using /repo (e.g. the thorough run): check the scratch worktree, which has the patch applied
+  cd /verif && bin/vf check -repo $wt -property $prop -no-evidence > /tmp/seed/out/$id.check.log 2>&1; c=$?
+else
+  cd /repo && git apply $out/patch.diff || { echo "patch does not apply to /repo"; exit 3; }
+  cd /verif && ./check.sh $prop quick > /tmp/seed/out/$id.check.log 2>&1; c=$?
+  git -C /repo checkout -- .
+fi
 echo "check $prop exit=$c"; grep -m3 "VIOLATION\|INCONCLUSIVE" /tmp/seed/out/$id.check.log | cut -c1-200
 grep -m2 "label=" /tmp/seed/out/$id.check.log | cut -c1-200
